@@ -205,6 +205,16 @@ class SWorld(object):
             helper = self._ds(e["helper"], hdeps, tag)
             self.decls[e["helper"]] = hitems
             deps, items = [helper], "o%d" % e["helper"]
+        elif kind in ("twoany", "reqany"):
+            # MORE THAN ONE at-least-one list: datasource([CtxA, CtxB], [helper_one, helper_two]) — and the control
+            # datasource(CtxA, [helper_one, helper_two]); the helpers are context-free datasources that succeed or fail
+            h1 = self._ds(e["helper"], [], tag)
+            h2 = self._ds(e["helper2"], [], tag)
+            self.decls[e["helper"]] = "-"
+            self.decls[e["helper2"]] = "-"
+            deps, items = self._ctx_items(e["ctxs"], kind == "twoany")
+            deps = deps + [[h1, h2]]
+            items = items + ";g%d,%d" % (e["helper"], e["helper2"])
         elif kind == "firstof":
             # spec_factory.first_of([h1, h2]): a datasource of the PLAIN type built by the factory helper
             h1 = self._ds(e["helper"], [self.ctxs[e["ctxs"][0]]], tag)
@@ -419,7 +429,7 @@ class Analysis(object):
         k = e["kind"]
         if k in ("free", "viafree"):
             return True
-        if k in ("single", "group", "via", "firstof"):
+        if k in ("single", "group", "via", "firstof", "twoany", "reqany"):
             return c in e["ctxs"]
         if k == "pdep":
             return c in e["ctxs"] and any(self.runnable(x, c) for x in self.subtree(self.case["nctx"] + e["pdep"]))
@@ -478,6 +488,8 @@ def oracle(report, world, case, active, b, err, desc):
             req_ok = True
             if last["kind"] in ("via", "viafree"):
                 req_ok = world.comps[last["helper"]] in b.instances
+            elif last["kind"] in ("twoany", "reqany"):      # each any-list must have a present member
+                req_ok = world.comps[last["helper"]] in b.instances or world.comps[last["helper2"]] in b.instances
             elif last["kind"] == "firstof":
                 req_ok = world.comps[last["helper"]] in b.instances or world.comps[last["helper2"]] in b.instances
             elif last["kind"] == "pdep":
@@ -656,6 +668,10 @@ def gen_case(rng, quick, allow_findings=True):
                 e["kind"] = "via"
                 e["helper"] = nid()
                 e["ctxs"] = related_pair() if rng.random() < 0.35 else [rng.randrange(nctx)]
+            if e["kind"] == "group" and rng.random() < 0.3 and len(set(e["ctxs"])) == 2:
+                e["kind"], e["helper"], e["helper2"] = "twoany", nid(), nid()       # a second any-list of helper datasources
+            elif e["kind"] == "single" and rng.random() < 0.12:
+                e["kind"], e["helper"], e["helper2"] = "reqany", nid(), nid()       # control: required context + one any-list
             if e["kind"] == "group" and ds_mode in ("mixed", "plain-only") and rng.random() < 0.25 and len(set(e["ctxs"])) == 2:
                 e["kind"], e["helper"], e["helper2"] = "firstof", nid(), nid()      # first_of([h(ctxA), h(ctxB)])
             if e["kind"] not in ("point", "firstof"):
@@ -1082,6 +1098,9 @@ def run(chk):
                 "CalledProcessError, TimeoutException, BlacklistedSpec, generic exception; a real @parser consumes every registry "
                 "point; returning None is a value (spec present with None from the latest implementation), a raising latest "
                 "implementation leaves the spec absent and its parser uninvoked; presence in the broker is checked, not broker.get; "
+                "a fraction of the implementations have MORE THAN ONE at-least-one list: datasource([CtxA, CtxB], [helper_one, "
+                "helper_two]) with context-free helper datasources that succeed or fail (and the control datasource(CtxA, [h1, h2])), "
+                "evaluated under contexts inside and outside the context list with helpers present / absent; "
                 "implementations are decorated with plain @datasource, SPECIALISED subclasses of datasource (one and two levels "
                 "deep, extra class attributes: every / the newest / older / random implementations of a spec), the factory helper "
                 "first_of, and rarely a non-datasource component type merely NAMED 'datasource' (must not be wired); the model's "
